@@ -60,9 +60,17 @@ func c03RootFinders(p *Prog) []*ssa.Function {
 	fpOpt := c01FieldOf(p, "", "ExtendedCopyGraphOptions", "FindPredecessors")
 	var out []*ssa.Function
 	for _, f := range p.FuncsOfPkg("") {
-		if len(CallsTo(f, nStackPop)) > 0 && len(c03LookupCalls(f, fpOpt)) > 0 {
-			out = append(out, f)
-			continue
+		if len(CallsTo(f, nStackPop)) > 0 {
+			found := false
+			for g := range c01ReachableFns(f, 2) {
+				if fnPkgPath(g) == Mod && len(c03LookupCalls(g, fpOpt)) > 0 {
+					found = true
+				}
+			}
+			if found {
+				out = append(out, f)
+				continue
+			}
 		}
 		for _, rf := range c01RangeFuncs(f) {
 			if rf.Prod != nil && len(CallsTo(rf.Prod, nStackPop)) > 0 && len(c03LookupCalls(rf.Body, fpOpt)) > 0 {
@@ -87,6 +95,20 @@ func c03LookupCalls(f *ssa.Function, fpOpt *types.Var) []ssa.CallInstruction {
 		}
 		if c01Slice(cc.Value, func(x ssa.Value) bool { return c01IsFieldValue(x, fpOpt) }) {
 			out = append(out, call)
+			continue
+		}
+		// the option parked in a field of a state struct (rootFinder.findPredecessors)
+		if c01P != nil {
+			if srcs, ok := c01CarriedSources(c01P, cc.Value); ok {
+				for _, sv := range srcs {
+					for _, r := range Roots(sv) {
+						if c01IsFieldValue(r, fpOpt) {
+							out = append(out, call)
+							break
+						}
+					}
+				}
+			}
 		}
 	}
 	return out
@@ -410,7 +432,70 @@ func c03R1(c *Ctx) {
 		derivesCurNode := func(v ssa.Value) bool {
 			return c01Slice(v, func(x ssa.Value) bool { return isCurField(x, nodeNI) })
 		}
-		// predecessor lookup
+		// the loop body may be a function the loop calls with the popped node: for { cur, ok := Pop(); …; visit(ctx, cur) }
+		takesCurrent := func(call ssa.CallInstruction) (*ssa.Function, *ssa.Parameter) {
+			g := StaticCallee(call)
+			if g == nil || !inModule(g) || len(g.Blocks) == 0 || fnPkgPath(g) != Mod {
+				return nil, nil
+			}
+			off := len(g.Params) - len(call.Common().Args)
+			for i, a := range call.Common().Args {
+				if i+off < 0 || i+off >= len(g.Params) {
+					continue
+				}
+				cur := false
+				for _, r := range Roots(a) {
+					if poppedSet[r] {
+						cur = true
+					}
+					if ld, isLd := r.(*ssa.UnOp); isLd && ld.Op == token.MUL && isCurrent(ld.X) {
+						cur = true
+					}
+				}
+				if cur {
+					return g, g.Params[i+off]
+				}
+			}
+			return nil, nil
+		}
+		if len(c03LookupCalls(B, fpOpt)) == 0 && !rangeMode {
+			for _, call := range Calls(B, func(string) bool { return true }) {
+				if !inLoop(call.(ssa.Instruction)) {
+					continue
+				}
+				V, prm := takesCurrent(call)
+				if V == nil {
+					continue
+				}
+				hasLookup := false
+				for g := range c01ReachableFns(V, 1) {
+					if len(c03LookupCalls(g, fpOpt)) > 0 {
+						hasLookup = true
+					}
+				}
+				if !hasLookup {
+					continue
+				}
+				// the visit's error ends the search; its success is "next iteration"
+				r := ErrFlow(call, ErrFlowOpts{})
+				c.Check(R, fname+"|visit-error-propagates", call.Pos(), r.OK, r.How+r.Detail)
+				B = V
+				for a := range Aliases(prm) {
+					poppedSet[a] = true
+				}
+				starts = []c03Start{{V.Blocks[0], 0}}
+				nexts = nil
+				for _, rt := range Returns(V) {
+					if !c01IsErrorReturn(rt, ErrResultIndex(V.Signature)) {
+						nexts = append(nexts, rt)
+					}
+				}
+				body := V
+				inLoop = func(in ssa.Instruction) bool { return in.Parent() == body || (in.Parent() != nil && in.Parent().Parent() == body) }
+				break
+			}
+		}
+		// predecessor lookup — in the body, or in a helper of the body that receives the node and returns the list
 		fps := c03LookupCalls(B, fpOpt)
 		var fp ssa.CallInstruction
 		for _, x := range fps {
@@ -418,12 +503,48 @@ func c03R1(c *Ctx) {
 				fp = x
 			}
 		}
-		if fp == nil || len(fps) != 1 {
+		var lookupHelper *ssa.Function // non-nil: the lookup (and the depth cut-off) live in this helper
+		var helperCall ssa.CallInstruction
+		if fp == nil && len(fps) == 0 {
+			for _, call := range Calls(B, func(string) bool { return true }) {
+				if !inLoop(call.(ssa.Instruction)) {
+					continue
+				}
+				H, prm := takesCurrent(call)
+				if H == nil || len(c03LookupCalls(H, fpOpt)) != 1 {
+					continue
+				}
+				lookupHelper, helperCall = H, call
+				fp = c03LookupCalls(H, fpOpt)[0]
+				for a := range Aliases(prm) {
+					poppedSet[a] = true
+				}
+			}
+		}
+		if fp == nil || (lookupHelper == nil && len(fps) != 1) {
 			c.Undecided(R, fname+"|predecessor-lookup", F.Pos(), "expected exactly one FindPredecessors call inside the DFS loop")
 			continue
 		}
 		preds := ResultOf(fp, 0)
 		argOK := len(fp.Common().Args) > 0 && derivesCurNode(fp.Common().Args[len(fp.Common().Args)-1])
+		if lookupHelper != nil {
+			// the helper hands the looked-up list on (or nothing at the depth limit); the body works on the helper's result
+			okH := preds != nil
+			for _, rt := range Returns(lookupHelper) {
+				if c01IsErrorReturn(rt, ErrResultIndex(lookupHelper.Signature)) {
+					continue
+				}
+				if k, isK := rt.Results[0].(*ssa.Const); isK && k.Value == nil {
+					continue
+				}
+				if preds == nil || !Aliases(preds)[rt.Results[0]] {
+					okH = false
+				}
+			}
+			rH := ErrFlow(helperCall, ErrFlowOpts{})
+			c.Check(R, fname+"|lookup-helper-hands-list-on", helperCall.Pos(), okH && rH.OK,
+				ifelse(okH && rH.OK, "the helper returns the looked-up predecessors (or none) and its error propagates", "the lookup helper does not return the looked-up predecessors, or its error is dropped"))
+		}
 		c.Check(R, fname+"|predecessor-lookup", fp.Pos(), preds != nil && argOK,
 			ifelse(preds != nil && argOK, "FindPredecessors is asked about the popped node and its result is used", "FindPredecessors is not called with the popped node, or its result is discarded"))
 		if preds == nil {
@@ -458,6 +579,11 @@ func c03R1(c *Ctx) {
 			r := ErrFlow(fp, ErrFlowOpts{})
 			c.Check(R, fname+"|predecessor-lookup-error", fp.Pos(), r.OK, r.How+r.Detail)
 		}
+		if lookupHelper != nil {
+			if hv := ResultOf(helperCall, 0); hv != nil {
+				preds = hv
+			}
+		}
 		// the looked-up list, also when carried through a variable that is nil when no lookup was made
 		predsSet := Aliases(preds)
 		inPreds := func(v ssa.Value) bool { return v != nil && (predsSet[v] || predsSet[strip(v)]) }
@@ -483,12 +609,8 @@ func c03R1(c *Ctx) {
 				var callee *ssa.Function
 				if g := StaticCallee(x); g != nil {
 					callee = g
-				} else {
-					for _, rv := range Roots(x.Call.Value) {
-						if mc, ok := rv.(*ssa.MakeClosure); ok {
-							callee = mc.Fn.(*ssa.Function)
-						}
-					}
+				} else if !x.Call.IsInvoke() {
+					callee, _ = c01FuncOfValue(x.Call.Value) // closure literal, local func variable, also when captured by the loop body
 				}
 				if callee == nil || !inModule(callee) || len(callee.Blocks) == 0 {
 					return
@@ -711,14 +833,31 @@ func c03R1(c *Ctx) {
 				if c01IsFieldValue(r, depthOpt) {
 					return true
 				}
+				// the option parked in a field of a state struct (rootFinder.depth)
+				if srcs, ok := c01CarriedSources(c.P, r); ok && len(srcs) > 0 {
+					all := true
+					for _, sv := range srcs {
+						if !c01IsFieldValue(strip(sv), depthOpt) {
+							all = false
+						}
+					}
+					if all {
+						return true
+					}
+				}
 			}
 			return false
+		}
+		// the function holding the depth cut-off and the lookup
+		DB, dStarts := B, starts
+		if lookupHelper != nil {
+			DB, dStarts = lookupHelper, []c03Start{{lookupHelper.Blocks[0], 0}}
 		}
 		var limited, unlimited, cutHolds, cutNot []Edge
 		var cutPos token.Pos
 		strictEq := true
 		offByOne := ""
-		for _, i := range Ifs(B) {
+		for _, i := range Ifs(DB) {
 			cond, t, f := ifEdges(i)
 			bo, ok := cond.(*ssa.BinOp)
 			if !ok {
@@ -805,8 +944,12 @@ func c03R1(c *Ctx) {
 		} else {
 			// the lookup is reached only below the cut-off (or with no limit)
 			ok := true
-			for _, st := range starts {
-				if reach(st.b, st.i, fp.(ssa.Instruction), newCut().Edges(cutNot...).Edges(unlimited...).Instr(nexts...)) {
+			for _, st := range dStarts {
+				stop := newCut().Edges(cutNot...).Edges(unlimited...)
+				if lookupHelper == nil {
+					stop.Instr(nexts...)
+				}
+				if reach(st.b, st.i, fp.(ssa.Instruction), stop) {
 					ok = false
 				}
 			}
@@ -842,7 +985,20 @@ func c03R1(c *Ctx) {
 						walkCut.Edges(nz...)
 					}
 				}
-				if toNext(e.To, 0, walkCut) {
+				if lookupHelper != nil {
+					// in the helper: at the limit nothing is looked up and an empty list goes back (the body records it as a root)
+					for _, rt := range Returns(lookupHelper) {
+						if !reach(e.To, 0, rt, nil) {
+							continue
+						}
+						if k, isK := rt.Results[0].(*ssa.Const); !isK || k.Value != nil || c01IsErrorReturn(rt, ErrResultIndex(lookupHelper.Signature)) {
+							bad = true
+						}
+					}
+					if reach(e.To, 0, fp.(ssa.Instruction), nil) {
+						bad = true
+					}
+				} else if toNext(e.To, 0, walkCut) {
 					bad = true
 				}
 			}
@@ -908,7 +1064,46 @@ func c03R1(c *Ctx) {
 				}
 			}
 		}
+		if cp, isPath := c01ValuePath(strip(fp.Common().Value)); isPath && len(cp.Vars) > 0 && cp.last() != fpOpt {
+			// the lookup goes through a field of a state struct: its assignments (anywhere in the package) are the alternatives
+			carrier := cp.last()
+			alts = nil
+			for _, g := range c.P.FuncsOfPkg("") {
+				sts := c04FieldStores(g, carrier)
+				if len(sts) == 0 {
+					continue
+				}
+				tested := c04FieldValues(g, carrier)
+				for v := range c04FieldValues(g, fpOpt) {
+					for a := range Aliases(v) {
+						tested[a] = true
+					}
+				}
+				gNil, _, _ := NilTests(g, tested)
+				for _, st := range sts {
+					alt := c03Alt{Val: st.Val}
+					isOpt := false
+					for _, r := range Roots(st.Val) {
+						if c01IsFieldValue(r, fpOpt) {
+							isOpt = true
+						}
+					}
+					if isOpt {
+						alt.Val = nil // the option itself
+					} else if len(gNil) > 0 && MustPass(st, newCut().Edges(gNil...)) && len(nilE) > 0 {
+						alt.Edges = []Edge{nilE[0]}
+					} else if len(gNil) > 0 && MustPass(st, newCut().Edges(gNil...)) {
+						nilE = append(nilE, gNil[0])
+						alt.Edges = []Edge{gNil[0]}
+					}
+					alts = append(alts, alt)
+				}
+			}
+		}
 		for _, alt := range alts {
+			if alt.Val == nil {
+				continue
+			}
 			if fieldLoads[alt.Val] || c01IsFieldValue(alt.Val, fpOpt) {
 				continue
 			}
@@ -933,13 +1128,28 @@ func c03R1(c *Ctx) {
 			if c01IsErrorReturn(rt, ErrResultIndex(F.Signature)) {
 				continue
 			}
-			if !c01Slice(rt.Results[0], func(x ssa.Value) bool {
+			fromMap := func(x ssa.Value) bool {
 				if _, ok := x.(*ssa.Range); ok {
 					return true
 				}
 				mt, ok := x.Type().Underlying().(*types.Map)
 				return ok && c01IsOCIDescriptor(mt.Elem())
-			}) {
+			}
+			okRt := c01Slice(rt.Results[0], fromMap)
+			if !okRt {
+				// built by a module helper from the recorded map (f.rootList())
+				if call, isCall := rt.Results[0].(*ssa.Call); isCall {
+					if g := StaticCallee(call); g != nil && inModule(g) && len(g.Blocks) > 0 {
+						okRt = len(Returns(g)) > 0
+						for _, r2 := range Returns(g) {
+							if !c01Slice(r2.Results[0], fromMap) {
+								okRt = false
+							}
+						}
+					}
+				}
+			}
+			if !okRt {
 				okRoots = false
 			}
 		}
@@ -1018,7 +1228,7 @@ func c03R2(c *Ctx) {
 	}
 	c.Check(R, "~.ExtendedCopyGraph|dispatches-found-roots", goCall.Pos(), rootsOK,
 		ifelse(rootsOK, "the items dispatched are the roots returned by the DFS", "the items handed to syncutil.Go are not the root finder's result"))
-	perRoot, _ := c01FuncOfValue(goCall.Common().Args[2])
+	perRoot, perRootRecv := c01FuncOfValue(goCall.Common().Args[2])
 	if perRoot == nil || len(perRoot.Blocks) == 0 {
 		c.Undecided(R, "~.ExtendedCopyGraph|per-root-closure", goCall.Pos(), "the function handed to syncutil.Go is not a closure, method value or function of the module")
 		return
@@ -1060,6 +1270,35 @@ func c03R2(c *Ctx) {
 		return nil, nil
 	}
 	cg, cgArgs := find(perRoot, map[*ssa.Parameter]ssa.Value{}, 0)
+	if cg == nil && perRootRecv != nil {
+		// the per-root function is a method of the state struct that also carries the traversal: it dispatches the
+		// traversal itself; proxy, limiter and tracker are that one struct's fields — shared iff the struct is created once
+		dispatches := false
+		for _, t := range c01Traversals(c.P) {
+			for f := range c01ReachableFns(perRoot, 2) {
+				if len(c01DispatchCalls(f, t.Entry)) > 0 {
+					dispatches = true
+				}
+			}
+		}
+		once := false
+		rs := Roots(perRootRecv)
+		if len(rs) == 1 {
+			switch u := rs[0].(type) {
+			case *ssa.Call:
+				once = chain[u.Parent()] && !Reachable(u, u)
+			case *ssa.Alloc:
+				once = chain[u.Parent()] && !Reachable(u, u)
+			}
+		}
+		if dispatches {
+			for _, what := range []string{"proxy", "limiter", "tracker"} {
+				c.Check(R, "~.ExtendedCopyGraph|shared-"+what, goCall.Pos(), once,
+					ifelse(once, "the "+what+" is a field of the one copy-state value created once outside the per-root function, whose method is dispatched per root", "the copy state whose method runs per root is not a single value created once: roots do not share the "+what))
+			}
+			return
+		}
+	}
 	if cg == nil {
 		c.LostAnchor(R, "call of the graph copy (function handing the traversal to syncutil.Go) reachable from the per-root function")
 		return
@@ -1944,6 +2183,10 @@ func c03CheckFilterLoopY(G *ssa.Function, l *Loop, descMT *types.Var, yield ssa.
 	return
 }
 
+// c03AppendHelperCalls: calls `acc = h(acc, page, keep)` of a module helper verified to return its first slice
+// argument extended by the kept elements of the other (filled by c03R6 while it analyses the page callbacks).
+var c03AppendHelperCalls = map[*ssa.Call]bool{}
+
 // c03CellOnlyAppended: every store to cell in G is append(<load of cell>, …).
 func c03CellOnlyAppended(G *ssa.Function, cell ssa.Value) (bool, token.Pos) {
 	ok, pos := true, token.NoPos
@@ -1953,6 +2196,9 @@ func c03CellOnlyAppended(G *ssa.Function, cell ssa.Value) (bool, token.Pos) {
 			return
 		}
 		call, isCall := st.Val.(*ssa.Call)
+		if isCall && c03AppendHelperCalls[call] {
+			return // acc = appendIf(acc, page, keep): verified append-only helper
+		}
 		good := isCall && (CalleeName(call) == "builtin:append" || CalleeName(call) == "slices.AppendSeq") && len(call.Call.Args) >= 1
 		if good {
 			ld, isLoad := call.Call.Args[0].(*ssa.UnOp)
@@ -2077,6 +2323,67 @@ func c03R6(c *Ctx) {
 								r.accCell = st.Addr
 								fl = &r
 							}
+						}
+					})
+				}
+				if fl == nil {
+					// acc = appendIf(acc, page, keep): the filtering loop is a module helper's, over its page parameter,
+					// accumulating onto its accumulator parameter
+					AllInstrs(G, func(in ssa.Instruction) {
+						st, isStore := in.(*ssa.Store)
+						if !isStore {
+							return
+						}
+						hc, isCall := st.Val.(*ssa.Call)
+						if !isCall {
+							return
+						}
+						h := StaticCallee(hc)
+						if h == nil || !inModule(h) || len(h.Blocks) == 0 || len(hc.Call.Args) != len(h.Params) {
+							return
+						}
+						accIdx, pageIdx := -1, -1
+						for i, a := range hc.Call.Args {
+							if ld, isLd := a.(*ssa.UnOp); isLd && ld.Op == token.MUL && ld.X == st.Addr {
+								accIdx = i
+							} else if isDescSlice(a.Type()) && c01ParamOf(a) != nil {
+								pageIdx = i
+							}
+						}
+						if accIdx < 0 || pageIdx < 0 {
+							return
+						}
+						for _, l := range Loops(h) {
+							X, _, _, _, ok := c01ElemLoop(l)
+							if !ok || c01ParamOf(X) != h.Params[pageIdx] {
+								continue
+							}
+							r, isF := c03CheckFilterLoop(h, l, descMT)
+							if !isF {
+								continue
+							}
+							if r.ok {
+								// starts from the accumulator parameter and returns the accumulated slice
+								if r.accPhi == nil {
+									r.ok, r.why = false, "the helper does not accumulate in a loop-carried slice"
+								} else {
+									for i, ev := range r.accPhi.Edges {
+										if !l.Blocks[l.Header.Preds[i]] && c01ParamOf(ev) != h.Params[accIdx] {
+											r.ok, r.why = false, "the helper's accumulator does not start from the slice it is given"
+										}
+									}
+									for _, ret := range Returns(h) {
+										if strip(ret.Results[0]) != ssa.Value(r.accPhi) {
+											r.ok, r.why = false, "the helper does not return the accumulated slice"
+										}
+									}
+								}
+							}
+							if r.ok {
+								c03AppendHelperCalls[hc] = true
+							}
+							r.accPhi, r.accCell = nil, st.Addr
+							fl = &r
 						}
 					})
 				}
